@@ -70,10 +70,10 @@ theorem parseStructLine_true_value (t : FieldType) (v : FieldValue) (ht : WFType
     Option.bind, plainFieldRest_render "__value__" t v ht hv, Option.map]
 
 /-- attribute lines of a member are collected by the member loop -/
-theorem structLoop_attr_lines : ∀ (as : List Attribute) (a : Attribute) (lines : List LLine) (rest : List LLine)
+theorem structLoop_attr_lines (pend : Option Comment) : ∀ (as : List Attribute) (a : Attribute) (lines : List LLine) (rest : List LLine)
     (cur : Option (List Attribute)) (acc : List Member),
     Forall2 (fun l x => IsCodeLine l (Printer.printAttribute x).toList) lines (a :: as) → (∀ x ∈ a :: as, WFFieldAttr x) →
-    structLoop (lines ++ rest) none cur acc = structLoop rest none (some (cur.getD [] ++ a :: as)) acc := by
+    structLoop (lines ++ rest) pend cur acc = structLoop rest pend (some (cur.getD [] ++ a :: as)) acc := by
   intro as
   induction as with
   | nil =>
@@ -95,9 +95,9 @@ theorem structLoop_attr_lines : ∀ (as : List Attribute) (a : Attribute) (lines
         List.append_assoc, List.cons_append, List.nil_append]
 
 /-- the lines of one member (attribute lines included) are read back as that member -/
-theorem structLoop_memberA (m : Member) (hm : WFMemberA m) (lines rest : List LLine) (acc : List Member)
+theorem structLoop_memberA (pend : Option Comment) (m : Member) (hm : WFMemberA m) (lines rest : List LLine) (acc : List Member)
     (hf : Forall2 IsCodeLine lines (memberTextsA m)) :
-    structLoop (lines ++ rest) none none acc = structLoop rest none none (m :: acc) := by
+    structLoop (lines ++ rest) pend none acc = structLoop rest none none (setMemberComment m pend :: acc) := by
   cases hm with
   | bare m hb =>
     have htexts : memberTextsA m = [m.render.toList] := by
@@ -108,7 +108,7 @@ theorem structLoop_memberA (m : Member) (hm : WFMemberA m) (lines rest : List LL
       cases hnil
       obtain ⟨hkind, htext⟩ := hl
       have hp := parseStructLine_render m hb
-      cases hb <;> simp only [List.cons_append, List.nil_append, structLoop, hkind, htext, hp, Option.isSome_none]
+      cases hb <;> simp only [List.cons_append, List.nil_append, structLoop, hkind, htext, hp, Option.isSome_none, setMemberComment]
   | plain name t v a as hn ht hv hattrs =>
     have htexts : memberTextsA (.field { name := name, fieldType := t, value := v, attributes := some (a :: as) }) =
         (a :: as).map (fun x => (Printer.printAttribute x).toList) ++
@@ -121,11 +121,11 @@ theorem structLoop_memberA (m : Member) (hm : WFMemberA m) (lines rest : List LL
     | @cons ln _ ls _ hl hnil =>
       cases hnil
       obtain ⟨hkind, htext⟩ := hl
-      have hattr := structLoop_attr_lines as a l1 (ln :: rest) none acc (forall2_map_right hf1) hattrs
+      have hattr := structLoop_attr_lines pend as a l1 (ln :: rest) none acc (forall2_map_right hf1) hattrs
       simp only [List.append_assoc, List.cons_append, List.nil_append] at hattr ⊢
       rw [hattr]
       simp only [structLoop, hkind, htext, Option.isSome_some, parseStructLine_true_plain name hn t v ht hv, Option.getD_none,
-        List.nil_append]
+        List.nil_append, setMemberComment]
   | valuePlaceholder t v a as ht hv hattrs =>
     have htexts : memberTextsA (.field { name := "__value__", fieldType := t, value := v, attributes := some (a :: as) }) =
         (a :: as).map (fun x => (Printer.printAttribute x).toList) ++
@@ -138,11 +138,11 @@ theorem structLoop_memberA (m : Member) (hm : WFMemberA m) (lines rest : List LL
     | @cons ln _ ls _ hl hnil =>
       cases hnil
       obtain ⟨hkind, htext⟩ := hl
-      have hattr := structLoop_attr_lines as a l1 (ln :: rest) none acc (forall2_map_right hf1) hattrs
+      have hattr := structLoop_attr_lines pend as a l1 (ln :: rest) none acc (forall2_map_right hf1) hattrs
       simp only [List.append_assoc, List.cons_append, List.nil_append] at hattr ⊢
       rw [hattr]
       simp only [structLoop, hkind, htext, Option.isSome_some, parseStructLine_true_value t v ht hv, Option.getD_none,
-        List.nil_append]
+        List.nil_append, setMemberComment]
 
 theorem structLoop_membersA : ∀ (ms : List Member) (kids : List LLine) (acc : List Member), (∀ m ∈ ms, WFMemberA m) →
     Forall2 IsCodeLine kids (ms.flatMap memberTextsA) → structLoop kids none none acc = .ok (acc.reverse ++ ms) := by
@@ -156,7 +156,8 @@ theorem structLoop_membersA : ∀ (ms : List Member) (kids : List LLine) (acc : 
     intro kids acc hwf hf
     simp only [List.flatMap_cons] at hf
     obtain ⟨l1, l2, rfl, h1, h2⟩ := forall2_append_right hf
-    rw [structLoop_memberA m (hwf m List.mem_cons_self) l1 l2 acc h1,
+    rw [structLoop_memberA none m (hwf m List.mem_cons_self) l1 l2 acc h1,
+      setMemberComment_none m (wfMemberA_comment m (hwf m List.mem_cons_self)),
       ih l2 (m :: acc) (fun x hx => hwf x (List.mem_cons_of_mem _ hx)) h2]
     simp
 
@@ -179,11 +180,11 @@ theorem parseTopLine_at (mode : TopMode) (text : Chars) :
 /-- a block that holds one attribute line -/
 def IsAttrBlock (b : Block) (t : Chars) : Prop := b.head.kind = .code ∧ b.body = none ∧ b.head.text = t
 
-theorem topLoop_struct_attrs : ∀ (as : List Attribute) (a : Attribute) (bs rest : List Block)
+theorem topLoop_struct_attrs (pend : Option Comment) : ∀ (as : List Attribute) (a : Attribute) (bs rest : List Block)
     (cur : Option (List Attribute)) (acc : List Item),
     Forall2 (fun b x => IsAttrBlock b (Printer.printAttribute x).toList) bs (a :: as) → (∀ x ∈ a :: as, WFStructAttr x) →
-    topLoop (bs ++ rest) { pending := none, attrs := cur.map fun l => (false, l) } acc =
-      topLoop rest { pending := none, attrs := some (false, cur.getD [] ++ a :: as) } acc := by
+    topLoop (bs ++ rest) { pending := pend, attrs := cur.map fun l => (false, l) } acc =
+      topLoop rest { pending := pend, attrs := some (false, cur.getD [] ++ a :: as) } acc := by
   intro as
   induction as with
   | nil =>
@@ -214,11 +215,11 @@ theorem topLoop_struct_attrs : ∀ (as : List Attribute) (a : Attribute) (bs res
         simp only [List.cons_append, topLoop, hkind, htext, ht, TopState.mode, Option.map, parseTopLine_at, hparse, hbody,
           Option.getD_some, this]
 
-theorem topLoop_enum_attrs : ∀ (as : List Attribute) (a : Attribute) (bs rest : List Block)
+theorem topLoop_enum_attrs (pend : Option Comment) : ∀ (as : List Attribute) (a : Attribute) (bs rest : List Block)
     (cur : Option (List Attribute)) (acc : List Item),
     Forall2 (fun b x => IsAttrBlock b (Printer.printAttribute x).toList) bs (a :: as) → (∀ x ∈ a :: as, WFEnumAttr x) →
-    topLoop (bs ++ rest) { pending := none, attrs := cur.map fun l => (true, l) } acc =
-      topLoop rest { pending := none, attrs := some (true, cur.getD [] ++ a :: as) } acc := by
+    topLoop (bs ++ rest) { pending := pend, attrs := cur.map fun l => (true, l) } acc =
+      topLoop rest { pending := pend, attrs := some (true, cur.getD [] ++ a :: as) } acc := by
   intro as
   induction as with
   | nil =>
@@ -303,21 +304,23 @@ theorem attrBlocks_forall2 : ∀ (texts : List Chars) (blank : Bool) (k : Nat),
     intro blank k
     exact .cons ⟨rfl, rfl, rfl⟩ (ih false _)
 
-theorem topLoop_struct_header (b : Block) (rest : List Block) (acc : List Item) (st : Option (Bool × List Attribute))
+theorem topLoop_struct_header (pend : Option Comment) (b : Block) (rest : List Block) (acc : List Item) (st : Option (Bool × List Attribute))
     (d : Option String) (name : String) (kids : List LLine) (fields : List Member) (hkind : b.head.kind = .code)
     (hparse : parseTopLine ({ attrs := st } : TopState).mode b.head.text = some (.structHeader d name))
     (hbody : b.body = some kids) (hloop : structLoop kids none none [] = .ok fields) :
-    topLoop (b :: rest) { attrs := st } acc =
-      topLoop rest {} (.decl (.struct { disposition := d, name := name, fields := fields, attributes := st.map (·.2) }) :: acc) := by
-  simp only [topLoop, hkind, hparse, hbody, hloop]
+    topLoop (b :: rest) { pending := pend, attrs := st } acc =
+      topLoop rest {} (.decl (.struct { disposition := d, name := name, fields := fields, attributes := st.map (·.2), comment := pend }) :: acc) := by
+  have hparse' : parseTopLine ({ pending := pend, attrs := st } : TopState).mode b.head.text = some (.structHeader d name) := hparse
+  simp only [topLoop, hkind, hparse', hbody, hloop]
 
-theorem topLoop_enum_header (b : Block) (rest : List Block) (acc : List Item) (st : Option (Bool × List Attribute))
+theorem topLoop_enum_header (pend : Option Comment) (b : Block) (rest : List Block) (acc : List Item) (st : Option (Bool × List Attribute))
     (name : String) (base : IntType) (values : List EnumValue) (hkind : b.head.kind = .code)
     (hparse : parseTopLine ({ attrs := st } : TopState).mode b.head.text = some (.enumHeader name base))
     (hloop : enumLoop (b.body.getD []) none [] = .ok values) :
-    topLoop (b :: rest) { attrs := st } acc =
-      topLoop rest {} (.decl (.enum { name := name, base := base, values := values, attributes := st.map (·.2) }) :: acc) := by
-  simp only [topLoop, hkind, hparse, hloop]
+    topLoop (b :: rest) { pending := pend, attrs := st } acc =
+      topLoop rest {} (.decl (.enum { name := name, base := base, values := values, attributes := st.map (·.2), comment := pend }) :: acc) := by
+  have hparse' : parseTopLine ({ pending := pend, attrs := st } : TopState).mode b.head.text = some (.enumHeader name base) := hparse
+  simp only [topLoop, hkind, hparse', hloop]
 
 theorem memberTextsA_ne_nil (m : Member) : memberTextsA m ≠ [] := by
   cases m <;> simp [memberTextsA]
@@ -378,17 +381,17 @@ theorem topLoop_declA (blank : Bool) (k : Nat) (d : Decl) (h : WFDeclA d) (rest 
         have hparse : parseTopLine ({ attrs := none } : TopState).mode (segBlock (hdr.seg k')).head.text =
             some (.enumHeader name base) := by
           rw [htext]; exact parseTopLine_enumHeader name base hn hb
-        rw [List.nil_append, topLoop_enum_header _ rest acc none name base values hkind hparse hloop]
+        rw [List.nil_append, topLoop_enum_header none _ rest acc none name base values hkind hparse hloop]
         rfl
       | some a as hall =>
         simp only [declAttrTexts, attrTexts, attrList] at hattrBlocks
-        have hloopA := topLoop_enum_attrs as a attrBlocks (segBlock (hdr.seg k') :: rest) none acc
+        have hloopA := topLoop_enum_attrs none as a attrBlocks (segBlock (hdr.seg k') :: rest) none acc
           (forall2_map_right hattrBlocks) hall
         have hparse : parseTopLine ({ attrs := some (true, a :: as) } : TopState).mode (segBlock (hdr.seg k')).head.text =
             some (.enumHeader name base) := by
           rw [htext]; exact parseTopLine_enumHeader_after name base hn hb
         simp only [Option.map_none, Option.getD_none, List.nil_append] at hloopA
-        rw [hloopA, topLoop_enum_header _ rest acc (some (true, a :: as)) name base values hkind hparse hloop]
+        rw [hloopA, topLoop_enum_header none _ rest acc (some (true, a :: as)) name base values hkind hparse hloop]
         rfl
   | struct s hs =>
     cases hs with
@@ -407,17 +410,17 @@ theorem topLoop_declA (blank : Bool) (k : Nat) (d : Decl) (h : WFDeclA d) (rest 
         have hparse : parseTopLine ({ attrs := none } : TopState).mode (segBlock (hdr.seg k')).head.text =
             some (.structHeader dsp name) := by
           rw [htext]; exact parseTopLine_structHeader dsp name hd hn
-        rw [List.nil_append, topLoop_struct_header _ rest acc none dsp name _ fields hkind hparse hbody hloop]
+        rw [List.nil_append, topLoop_struct_header none _ rest acc none dsp name _ fields hkind hparse hbody hloop]
         rfl
       | some a as hall =>
         simp only [declAttrTexts, attrTexts, attrList] at hattrBlocks
-        have hloopA := topLoop_struct_attrs as a attrBlocks (segBlock (hdr.seg k') :: rest) none acc
+        have hloopA := topLoop_struct_attrs none as a attrBlocks (segBlock (hdr.seg k') :: rest) none acc
           (forall2_map_right hattrBlocks) hall
         have hparse : parseTopLine ({ attrs := some (false, a :: as) } : TopState).mode (segBlock (hdr.seg k')).head.text =
             some (.structHeader dsp name) := by
           rw [htext]; exact parseTopLine_structHeader_after dsp name hd hn
         simp only [Option.map_none, Option.getD_none, List.nil_append] at hloopA
-        rw [hloopA, topLoop_struct_header _ rest acc (some (false, a :: as)) dsp name _ fields hkind hparse hbody hloop]
+        rw [hloopA, topLoop_struct_header none _ rest acc (some (false, a :: as)) dsp name _ fields hkind hparse hbody hloop]
         rfl
 
 /-! ### the whole document -/
